@@ -59,7 +59,8 @@ CONSTANTS
 
 \* modules a config text may import (real, side-effect free standard modules) and keys of directly built singletons
 ImportModules == {"colorsys", "string", "os.path"}
-DirectSingletonKeys == { <<"d1">>, <<"s1">> }        \* "s1" is also a scope under which the models use gin.singleton
+DirectSingletonKeys == { <<"d1">>, <<"s1">> }
+ConstQueryNames == { <<"X">>, <<"m","X">>, <<"Y">>, <<"n","Y">> }      \* names query_parameter may be asked for        \* "s1" is also a scope under which the models use gin.singleton
 
 (* A configurable descriptor:
      [ sel   : full selector, a sequence of components, e.g. <<"m","f">>
@@ -709,6 +710,16 @@ DefineConstant(name, v, valid) ==
           /\ out' = [op |-> "DefineConstant", name |-> name, val |-> v, valid |-> valid, status |-> "ok"]
   /\ UNCHANGED <<reg, cfg, stack, okeys, oper, locked, usaved, interactive, singles, hooks, imports>>
 
+\* query_parameter with the (possibly abbreviated) name of a constant (1142-1148): its value - whatever that value is
+QueryConst(name) ==
+  /\ "QueryConst" \in Enabled
+  /\ name \in ConstQueryNames
+  /\ LET m == MatchSet({ k.name : k \in consts }, name) IN
+     out' = [op |-> "QueryConst", name |-> name,
+             status |-> IF Cardinality(m) = 1 THEN "ok" ELSE "ValueError",      \* none: no such configurable; several: ambiguous
+             val |-> IF Cardinality(m) = 1 THEN (CHOOSE k \in consts : k.name \in m).val ELSE <<"none">>]
+  /\ UNCHANGED <<reg, cfg, stack, okeys, oper, locked, usaved, interactive, singles, consts, hooks, imports>>
+
 \* a config text consisting of an import statement (2411-2421, 2429-2432): recorded once the parse completes;
 \* nothing is bound, so the lock is not consulted
 ParseImport(m) ==
@@ -741,6 +752,7 @@ Next ==
   \/ \E c \in Confs, call \in AllCalls : Call(c, call)
   \/ \E cc \in BOOLEAN : Clear(cc)
   \/ \E m \in ImportModules : ParseImport(m)
+  \/ \E n \in ConstQueryNames : QueryConst(n)
   \/ \E k \in DirectSingletonKeys : SingletonDirect(k)
   \/ Finalize
   \/ \E h \in HookUniverse : RegisterHook(h)
